@@ -305,6 +305,16 @@ func (e *SpecEnv) evalIdent(name string) Val {
 			return v
 		}
 	}
+	if name == "TIME_ZERO" {
+		return Val{T: timeZeroNS, S: sInt}
+	}
+	if name == "rangeindex" && e.atLoop != nil {
+		if ri, _ := rangeIndexLoop(e.atLoop.header); ri != nil {
+			if v, ok := e.st.locals[ri]; ok {
+				return v
+			}
+		}
+	}
 	// package scope
 	if pkg := e.pkg(); pkg != nil {
 		if o := pkg.Scope().Lookup(name); o != nil {
@@ -678,6 +688,21 @@ func (e *SpecEnv) evalCall(n ECall) Val {
 	case "isnil":
 		p := arg(0)
 		return Val{T: sEq(p.T, g.nilOf(p).T), S: sBool}
+	case "as":
+		// as(x, "pkg.Type"): the value of interface x viewed at dynamic type T (meaningful when tagis(x,T))
+		x := arg(0)
+		tn := n.Args[1].(EStr).V
+		t := g.W.lookupType(tn, e.pkg())
+		if t == nil {
+			g.errorf("spec: unknown type %s", tn)
+			return Val{T: "0", S: sInt}
+		}
+		s := g.sortOf(t)
+		unbox := "unbox_" + s.Key()
+		box := "box_" + s.Key()
+		g.declareFun(box, fmt.Sprintf("(%s) Int", s.SMT()))
+		g.declareFun(unbox, fmt.Sprintf("(Int) %s", s.SMT()))
+		return Val{T: fmt.Sprintf("(%s (if.val %s))", unbox, x.T), S: s, G: t}
 	case "tagis":
 		// tagis(x, "pkg.Type"): dynamic type of interface value
 		x := arg(0)
@@ -732,7 +757,7 @@ func (e *SpecEnv) evalCall(n ECall) Val {
 		return Val{T: "true", S: sBool}
 	}
 	// user spec functions (inline expansion)
-	if sf := g.W.specFuncs[n.Fn]; sf != nil {
+	if sf, sfPkg := g.W.lookupSpecFunc(n.Fn, e.pkg()); sf != nil {
 		if len(sf.Params) != len(n.Args) {
 			g.errorf("spec: %s expects %d arguments", n.Fn, len(sf.Params))
 			return Val{T: "true", S: sBool}
@@ -755,7 +780,7 @@ func (e *SpecEnv) evalCall(n ECall) Val {
 			g.errorf("spec: recursion too deep in %s", n.Fn)
 			return Val{T: "true", S: sBool}
 		}
-		c := &SpecEnv{g: g, st: e.st, old: e.old, vars: map[string]Val{}, calleePkg: g.W.specFuncPkg[n.Fn], depth: e.depth + 1}
+		c := &SpecEnv{g: g, st: e.st, old: e.old, vars: map[string]Val{}, calleePkg: sfPkg, depth: e.depth + 1}
 		if c.calleePkg == nil {
 			c.calleePkg = e.pkg()
 		}
